@@ -4,6 +4,13 @@ import NauyacaVerif.Drv.SrvD
 import NauyacaVerif.Drv.MwD
 import NauyacaVerif.Drv.FsD
 import NauyacaVerif.Drv.ClD
+import NauyacaVerif.Drv.CertD
+import NauyacaVerif.Drv.UploadD
+import NauyacaVerif.Drv.TofuD
+import NauyacaVerif.Drv.SessD
+import NauyacaVerif.Drv.ClientD
+import NauyacaVerif.Drv.ProxyD
+import NauyacaVerif.Drv.PumpD
 
 /-! Line-protocol driver: one case per line in, one canonical line out.
     The first word selects the model.  Never defaults an unparseable case. -/
@@ -11,7 +18,8 @@ import NauyacaVerif.Drv.ClD
 open NauyacaVerif.Drv
 
 def handlers : List (List String → Option String) :=
-  [UrlD.handle, SrvD.handle, MwD.handle, FsD.handle, ClD.handle]
+  [UrlD.handle, SrvD.handle, MwD.handle, FsD.handle, ClD.handle, CertD.handle, UploadD.handle,
+   TofuD.handle, SessD.handle, ClientD.handle, ProxyD.handle, PumpD.handle]
 
 def dispatch (ws : List String) : String :=
   match handlers.findSome? (fun h => h ws) with
